@@ -209,8 +209,12 @@ func c15AddrEval(f []string) (string, []string) {
 	}
 	a = a.Normalize()
 	tags := []string{"ok"}
-	if a.Scheme != "" {
+	switch a.Scheme {
+	case "":
+	case "http", "https":
 		tags = append(tags, "scheme="+a.Scheme)
+	default:
+		tags = append(tags, "scheme=other")
 	}
 	if a.Port != "" {
 		tags = append(tags, "port")
